@@ -98,6 +98,52 @@ def lit_arg(tc, v):
     return lit_value(tc, v)
 
 
+# The same abstract value reaches a Duden function in different REPRESENTATIONS depending on what produced it (a literal,
+# a concatenation, a slice, another Duden function: capacity > length, an allocated empty buffer, ...).  A producer is
+# chosen per argument; the expected results do not depend on it.
+PRODUCERS_T = ("join", "concat", "slice")
+
+
+def choose_producer(rng, tc, v):
+    if tc == "T":
+        p = 0.5 if v == "" else 0.3            # the empty text has the most representations
+        if rng.random() < p:
+            k = rng.choice(PRODUCERS_T)
+            return "join" if (k == "slice" and v == "") else k
+    elif tc.endswith("L") and tc != "YL":
+        if rng.random() < 0.25:
+            return "elems" if (tc == "TL" and v and rng.random() < 0.5) else "concat"
+    return "lit"
+
+
+def prod_text(kind, s, salt=0):
+    if kind == "join":
+        if not s:
+            return "((eine leere Buchstaben Liste) aneinandergehängt)"
+        return "((eine Liste, die aus %s besteht) aneinandergehängt)" % ", ".join(lit_char(ch) for ch in s)
+    if kind == "concat":
+        k = (salt + len(s) // 2) % (len(s) + 1)
+        return "(%s verkettet mit %s)" % (lit_text(s[:k]), lit_text(s[k:]))
+    if kind == "slice" and s:
+        return "(%s im Bereich von 2 bis %d)" % (lit_text("x" + s + "yz"), 1 + len(s))
+    return lit_text(s)
+
+
+def prod_value(tc, v, kind, as_arg):
+    """the expression for value v of type tc made by producer 'kind'"""
+    if kind == "lit" or kind is None:
+        return lit_arg(tc, v) if as_arg else lit_value(tc, v)
+    if tc == "T":
+        return prod_text(kind, v)
+    if kind == "elems":      # Text Liste whose elements come from producers
+        kinds = ("join", "concat", "slice")
+        return "(eine Liste, die aus %s besteht)" % ", ".join(prod_text(kinds[i % 3] if e else "join", e, i) for i, e in enumerate(v))
+    if kind == "concat":
+        k = len(v) // 2
+        return "((%s) verkettet mit (%s))" % (lit_value(tc, v[:k]), lit_value(tc, v[k:]))
+    raise ValueError(kind)
+
+
 def fmt_k(x):
     x = float(x)
     if math.isinf(x):
@@ -155,7 +201,7 @@ HELPERS = None
 
 
 class Case:
-    __slots__ = ("cid", "group", "T", "args", "params", "ret", "modes", "alias", "negate", "store", "expect", "error", "cls", "line", "model_exc")
+    __slots__ = ("cid", "group", "T", "args", "params", "ret", "modes", "alias", "negate", "store", "expect", "error", "cls", "line", "model_exc", "prod")
 
 
 def subst(tc, T):
@@ -232,6 +278,7 @@ def build_case(duden, g, T, rng, cid, args=None):
     for pn, tc, must_var in params:
         c.modes[pn] = "var" if must_var or rng.random() < 0.6 else "tmp"
     c.store = rng.random() < 0.5
+    c.prod = {pn: choose_producer(rng, tc, args[pn]) for pn, tc, _ in params}
     c.error = False
     c.model_exc = None
     try:
@@ -261,10 +308,10 @@ def render_case(c, first_line):
     argtxt = {}
     for pn, tc, _ in c.params:
         if c.modes[pn] == "var":
-            lines.append("%s %s ist %s." % (DECL[tc], v(pn), lit_value(tc, c.args[pn])))
+            lines.append("%s %s ist %s." % (DECL[tc], v(pn), prod_value(tc, c.args[pn], c.prod.get(pn), False)))
             argtxt[pn] = v(pn)
         else:
-            argtxt[pn] = lit_arg(tc, c.args[pn])
+            argtxt[pn] = prod_value(tc, c.args[pn], c.prod.get(pn), True)
     call = P.render_alias(c.alias, argtxt, c.negate)
     show = lambda tc, e: "c17%s %s." % (tc.lower(), e)
     tag = 'Schreibe "#%d:".' % c.cid
@@ -296,6 +343,8 @@ def render_driver(cases):
     for c in cases:
         if c.group.module not in mods:
             mods.append(c.group.module)
+    if "Listen" not in mods and any(k in ("join", "elems") for c in cases for k in c.prod.values()):
+        mods.append("Listen")       # "<liste> aneinandergehängt" is declared there
     head = ['Binde "Duden/Ausgabe" ein.'] + ['Binde "Duden/%s" ein.' % m for m in mods] + ["", HELPERS, ""]
     text = "\n".join(head) + "\n"
     lineno = text.count("\n") + 1
@@ -351,7 +400,7 @@ def describe(tc, want):
 
 
 def case_record(c, O):
-    return {"group": c.group.key, "T": c.T, "args": c.args, "modes": c.modes, "alias": c.alias, "negate": c.negate, "store": c.store, "O": O}
+    return {"group": c.group.key, "T": c.T, "args": c.args, "modes": c.modes, "alias": c.alias, "negate": c.negate, "store": c.store, "prod": c.prod, "O": O}
 
 
 def case_from_record(duden, rec, cid=1):
@@ -367,6 +416,7 @@ def case_from_record(duden, rec, cid=1):
     c = Case()
     c.cid, c.group, c.T, c.args, c.params, c.ret = cid, g, rec["T"], rec["args"], params, ret
     c.alias, c.negate, c.modes, c.store = rec["alias"], rec["negate"], rec["modes"], rec["store"]
+    c.prod = rec.get("prod") or {}
     c.error = False
     try:
         res, upd = g.model(copy.deepcopy(c.args))
@@ -565,7 +615,7 @@ def call_text(c, r):
 
 
 def note_ok(chk, c, fname, r, state, remark):
-    chk.note_case((c.group.key, c.T, json.dumps(c.args, sort_keys=True, ensure_ascii=False), c.alias, c.negate, c.store, tuple(sorted(c.modes.items()))))
+    chk.note_case((c.group.key, c.T, json.dumps(c.args, sort_keys=True, ensure_ascii=False), c.alias, c.negate, c.store, tuple(sorted(c.modes.items())), tuple(sorted(c.prod.items()))))
     chk.count("calls_judged")
     with chk.lock:
         state["covered"].setdefault(c.group.module, {}).setdefault(fname, 0)
@@ -582,7 +632,7 @@ def note_ok(chk, c, fname, r, state, remark):
 
 
 def report(chk, c, fname, r, state, kind, expected, observed):
-    chk.note_case((c.group.key, c.T, json.dumps(c.args, sort_keys=True, ensure_ascii=False), c.alias, c.negate, c.store, tuple(sorted(c.modes.items()))))
+    chk.note_case((c.group.key, c.T, json.dumps(c.args, sort_keys=True, ensure_ascii=False), c.alias, c.negate, c.store, tuple(sorted(c.modes.items())), tuple(sorted(c.prod.items()))))
     chk.count("calls_judged")
     with chk.lock:
         state["covered"].setdefault(c.group.module, {}).setdefault(fname, 0)
@@ -590,6 +640,9 @@ def report(chk, c, fname, r, state, kind, expected, observed):
         state["disagreements"].setdefault("%s.%s" % (c.group.module, fname), 0)
         state["disagreements"]["%s.%s" % (c.group.module, fname)] += 1
     sig = {"module": c.group.module, "function": fname, "case": "%s: %s" % (kind, c.cls)}
+    nonlit = sorted({k for k in c.prod.values() if k != "lit"})
+    if nonlit:
+        sig["producers"] = ",".join(nonlit)
     if chk.match_known(sig) is None:
         with chk.lock:
             key = json.dumps(sig, sort_keys=True, ensure_ascii=False)
@@ -638,7 +691,7 @@ def plan_cases(duden, seed, tier, chk, state):
                 if c is None:
                     chk.count("generator_declined")
                     continue
-                key = (json.dumps(c.args, sort_keys=True, ensure_ascii=False), c.alias, c.negate, c.store, tuple(sorted(c.modes.items())))
+                key = (json.dumps(c.args, sort_keys=True, ensure_ascii=False), c.alias, c.negate, c.store, tuple(sorted(c.modes.items())), tuple(sorted(c.prod.items())))
                 if key in seen:
                     continue
                 seen.add(key)
